@@ -312,23 +312,36 @@ def h4_boxes(timeout=60, **kw):
         ck = ex.choice(5, "cb")
         attrs = {}
         good = [x0, y0, x1, y1]
+        form = ex.choice(3, "form")      # a well-formed box is written directly / with every element an indirect reference / as one indirect reference to the array
+        doc = _StubDoc()
+
+        def wrap(box, base):
+            from pdfminer.pdftypes import PDFObjRef
+            if form == 1:
+                for i, v in enumerate(box):
+                    doc.objs[base + i] = v
+                return [PDFObjRef(doc, base + i) for i in range(len(box))]
+            if form == 2:
+                doc.objs[base] = box
+                return PDFObjRef(doc, base)
+            return box
         if mk:
-            attrs["MediaBox"] = [None, good, good[:3], 7, [x0, LIT("A"), x1, y1]][mk]
+            attrs["MediaBox"] = [None, wrap(good, 20), good[:3], 7, [x0, LIT("A"), x1, y1]][mk]
         if ck:
-            attrs["CropBox"] = [None, [x0 + 1, y0 + 1, x1 - 1, y1 - 1], good[:2], 7, [x0, LIT("A"), x1, y1]][ck]
+            attrs["CropBox"] = [None, wrap([x0 + 1, y0 + 1, x1 - 1, y1 - 1], 30), good[:2], 7, [x0, LIT("A"), x1, y1]][ck]
         try:
-            page = pp.PDFPage(_StubDoc(), 1, attrs, None)
+            page = pp.PDFPage(doc, 1, attrs, None)
         except Exception as e:
-            ex.require(False, "PDFPage(%r) raised %s: %s" % (attrs, type(e).__name__, e), mk=mk, ck=ck)
+            ex.require(False, "PDFPage(%r) raised %s: %s" % (attrs, type(e).__name__, e), mk=mk, ck=ck, form=form)
         emb = (x0, y0, x1, y1) if mk == 1 else (0.0, 0.0, 612.0, 792.0)
         ecb = (x0 + 1, y0 + 1, x1 - 1, y1 - 1) if ck == 1 else emb
         eq = lambda A, B: SB(z3.And([symx.zr(p) == symx.zr(q) for p, q in zip(A, B)]))
-        ex.require(eq(page.mediabox, emb), "MediaBox default/parse wrong", mk=mk, ck=ck)
-        ex.require(eq(page.cropbox, ecb), "CropBox default/parse wrong", mk=mk, ck=ck)
+        ex.require(eq(page.mediabox, emb), "MediaBox default/parse wrong", mk=mk, ck=ck, form=form)
+        ex.require(eq(page.cropbox, ecb), "CropBox default/parse wrong", mk=mk, ck=ck, form=form)
 
     def conc(m, info):
-        return {"mk": info["mk"], "ck": info["ck"]}
-    return core.run_symx("H4_boxes", fn, [pp.PDFPage._parse_mediabox, pp.PDFPage._parse_cropbox], {"boxes": "absent / 4 symbolic reals / wrong length / not an array"},
+        return {"mk": info["mk"], "ck": info["ck"], "form": info["form"]}
+    return core.run_symx("H4_boxes", fn, [pp.PDFPage._parse_mediabox, pp.PDFPage._parse_cropbox], {"boxes": "absent / 4 symbolic reals (direct, each element indirect, or the array indirect) / wrong length / not an array"},
                          timeout, concretize=conc, shims={"namespace_shims": shims})
 
 
@@ -405,12 +418,25 @@ def replay(harness, inp):
         from pdfminer.psparser import LIT
         good = [1.0, 2.0, 30.0, 40.0]
         attrs = {}
+        form = inp.get("form", 0)
+        doc = _StubDoc()
+
+        def wrap(box, base):
+            from pdfminer.pdftypes import PDFObjRef
+            if form == 1:
+                for i, v in enumerate(box):
+                    doc.objs[base + i] = v
+                return [PDFObjRef(doc, base + i) for i in range(len(box))]
+            if form == 2:
+                doc.objs[base] = box
+                return PDFObjRef(doc, base)
+            return box
         if inp["mk"]:
-            attrs["MediaBox"] = [None, good, good[:3], 7, [1.0, LIT("A"), 30.0, 40.0]][inp["mk"]]
+            attrs["MediaBox"] = [None, wrap(good, 20), good[:3], 7, [1.0, LIT("A"), 30.0, 40.0]][inp["mk"]]
         if inp["ck"]:
-            attrs["CropBox"] = [None, [2.0, 3.0, 29.0, 39.0], good[:2], 7, [1.0, LIT("A"), 30.0, 40.0]][inp["ck"]]
+            attrs["CropBox"] = [None, wrap([2.0, 3.0, 29.0, 39.0], 30), good[:2], 7, [1.0, LIT("A"), 30.0, 40.0]][inp["ck"]]
         try:
-            page = pp.PDFPage(_StubDoc(), 1, attrs, None)
+            page = pp.PDFPage(doc, 1, attrs, None)
         except Exception as e:
             return "PDFPage(attrs=%r) raised %r instead of falling back to the default box" % (attrs, e)
         emb = tuple(good) if inp["mk"] == 1 else (0.0, 0.0, 612.0, 792.0)
